@@ -64,6 +64,8 @@ var genLayouts = []genLayout{
 	{name: "gen_2aud", videoT: 90000, frameDur: 3600, videoSegs: []int{180000, 180000, 180000, 180000}, audioCodec: "aac", audioSegs: []int{94, 94, 94, 93}, audio2: "ac3", audio2Segs: []int{63, 62, 63, 62}, onlyFor: "C02 C03 C04"},
 	// a representation id that ends with another representation's id (AV1 / V1)
 	{name: "gen_sfx", videoT: 90000, frameDur: 3600, videoSegs: []int{180000, 180000, 180000}, audioCodec: "aac", audioSegs: []int{94, 94, 94}, audioID: "AV1", onlyFor: "C01 C04 C07"},
+	// irregular durations whose first segment has exactly the mean duration, $Time$ addressing
+	{name: "gen_mean", videoT: 90000, frameDur: 3600, videoSegs: []int{180000, 270000, 90000, 180000}, timeURI: true, audioCodec: "aac", audioSegs: []int{94, 141, 47, 93}, onlyFor: "C01 C02 C04"},
 	{name: "gen_short", videoT: 15360, frameDur: 512, videoSegs: []int{15360, 15360, 15360}, audioCodec: "aac", audioSegs: []int{47, 47, 46}, stpp: true, stppT: 90000},
 }
 
